@@ -220,6 +220,7 @@ class Elem:
             sl = e.slice
             elts = sl.elts if isinstance(sl, ast.Tuple) else [sl]
             if all(isinstance(x, ast.Slice) or (isinstance(x, ast.Constant) and (x.value is None or x.value is Ellipsis or isinstance(x.value, int)))
+                   or (isinstance(x, ast.UnaryOp) and isinstance(x.op, ast.USub) and isinstance(x.operand, ast.Constant))
                    or (isinstance(x, ast.Attribute) and x.attr == "newaxis") for x in elts):
                 return base  # broadcasting adapter / component selection: same generic element
             m = self.mask_of(sl)
